@@ -320,7 +320,8 @@ def obligations(tier, seed):
             out.append(ob('C09/aspath/segs=%s/as4=%s' % ('-'.join('%d.%d' % s for s in segs) or 'none', as4), 'ob_attrs',
                           {'attrs': ['aspath'], 'segs': segs, 'as4': as4}, covers=['parsed']))
     # attribute order: all permutations of groups of 3 (quick) / 4 (thorough)
-    groups = [['origin', 'aspath', 'nexthop'], ['med', 'localpref', 'community'], ['aggregator', 'atomic', 'largecomm']]
+    groups = [['origin', 'aspath', 'nexthop'], ['med', 'localpref', 'community'], ['aggregator', 'atomic', 'largecomm'],
+              ['as4_path', 'aspath', 'aggregator']]
     if not quick:
         groups = [['origin', 'aspath', 'nexthop', 'med'], ['localpref', 'community', 'aggregator', 'atomic'],
                   ['originator', 'cluster', 'extcomm-rt0', 'largecomm'], ['as4_path', 'as4_aggregator', 'aspath', 'origin']]
